@@ -58,6 +58,14 @@ def gen_progs(rng, tier):
         (["createdir 0:j61", "createdir 0:j612f62"], [["create_file", "a/b"]], [["remove_dir", "a/b"], ["create_file", "a/b"]]),
         ([], [["append", "a/f"]], [["create_dir", "a"], ["create_file", "a/f"]]),
     ]
+    # a writer whose single write is as large as std's copy buffer (8 KiB) and larger: writing is private to the handle
+    # whatever its size, only flush / drop publish
+    for j, n in enumerate((8191, 8192, 8193, 20000)):
+        big = "hwrite 0 " + "61" * n
+        progs.append(conclib.Prog("c16big%d" % j, CFG, ["createfile 0:j66", "hwrite 1000 6f6c64", "hdrop 1000"],
+                                  [["createfile 0:j66", big, "hdrop 0"],
+                                   ["openfile 0:j66", "hreadtoend 0", "hdrop 0", "createfile 0:j66", "hwrite 3 78", "hdrop 3"]],
+                                  "explore 3000"))
     # open_file stamps the access time: with an explicitly set time before, a third thread can tell whether the stamp
     # of an open_file that later fails was visible (repaired by e051178: stamp and read under one lock)
     for j, third in enumerate(["metadata", "exists"]):
